@@ -6,18 +6,11 @@ use mc_core as mc;
 use smartcore::linalg::naive::dense_matrix::DenseMatrix;
 use smartcore::linalg::{BaseMatrix, BaseVector, Matrix};
 
-pub trait Bk: Matrix<f64> + 'static {
-    const NAME: &'static str;
-}
-impl Bk for DenseMatrix<f64> {
-    const NAME: &'static str = "dense";
-}
-impl Bk for ndarray::Array2<f64> {
-    const NAME: &'static str = "ndarray";
-}
-impl Bk for nalgebra::DMatrix<f64> {
-    const NAME: &'static str = "nalgebra";
-}
+/// The three instantiations (in the order of `NAMES`).
+pub trait Bk: Matrix<f64> + 'static {}
+impl Bk for DenseMatrix<f64> {}
+impl Bk for ndarray::Array2<f64> {}
+impl Bk for nalgebra::DMatrix<f64> {}
 
 pub const NAMES: [&str; 3] = ["dense", "ndarray", "nalgebra"];
 pub const LAYOUTS: [&str; 2] = ["built element by element", "transpose() of the transpose-shaped twin"];
